@@ -40,8 +40,10 @@ func propC13(p *Prog, r *Report) {
 		Sentinels: []string{"fs_db.ErrTxNotFound"},
 		Entries:   inlineEntries(p),
 		SkipPkgs:  []string{pkgExtDB, pkgAdapterErr},
-		Tolerated: map[string][]string{kTxRollback: {"is:fs_db.ErrTxNotFound"}, kCleanerDeleteOld: {"is:fs_db.ErrTxNotFound"}},
-		Sinks:     []string{"(*internal/utils/async.readWriter).SetError"},
+		// (the registry's Store asks "is this id free": a lookup that answers ErrTxNotFound is the good case there)
+		Tolerated: map[string][]string{kTxRollback: {"is:fs_db.ErrTxNotFound"}, kCleanerDeleteOld: {"is:fs_db.ErrTxNotFound"},
+			"(*internal/repository/transaction.Repo).Store": {"is:fs_db.ErrTxNotFound"}},
+		Sinks: []string{"(*internal/utils/async.readWriter).SetError"},
 	})
 	r.Floor("C13.c", "class-relevant-call-sites", n, 12)
 	// wire: the sentinel round-trips (subset of C11.a)
@@ -159,6 +161,10 @@ func c13RegistryOrigin(p *Prog, r *Report) {
 			if id, ok := e.(*ast.Ident); ok && env.Pkg == fi.Pkg && objOf(info, id) == okObj {
 				return boolVal(false), true
 			}
+			// a sentinel error is a value of its own (it may travel through a helper's result variable)
+			if k := exprObjKey(env.Pkg.TypesInfo, e); strings.HasPrefix(k, "fs_db.Err") {
+				return &Val{Tag: k}, true
+			}
 			return nil, false
 		}
 		_, exit, err := f.WalkPath(env)
@@ -168,7 +174,11 @@ func c13RegistryOrigin(p *Prog, r *Report) {
 		}
 		got := ""
 		if rs := f.returnStmt(exit); rs != nil && len(rs.Results) > 0 {
-			got = valueKey(info, rs.Results[len(rs.Results)-1])
+			last := rs.Results[len(rs.Results)-1]
+			got = valueKey(info, last)
+			if v, err := env.Eval(last); err == nil && v != nil && strings.HasPrefix(v.Tag, "fs_db.Err") {
+				got = v.Tag
+			}
 		}
 		r.Check(got == "fs_db.ErrTxNotFound" || got == "wrap:fs_db.ErrTxNotFound", "C13.a", k+"#unknown-id", p.pos(fi.Decl), "an unregistered id yields ErrTxNotFound",
 			"the registry answers an unregistered (finished) transaction id with "+got+" instead of ErrTxNotFound")
@@ -297,7 +307,8 @@ func c14Consumed(p *Prog, r *Report) {
 			var listObj types.Object
 			switch st := f.Nodes[s.Node].Ast.(type) {
 			case *ast.AssignStmt:
-				if len(st.Lhs) >= 1 {
+				// (only when the statement binds the producer's own results)
+				if len(st.Lhs) >= 1 && len(st.Rhs) == 1 && ast.Unparen(st.Rhs[0]) == ast.Expr(s.Call) {
 					if id, ok := st.Lhs[0].(*ast.Ident); ok && id.Name != "_" {
 						listObj = objOf(info, st.Lhs[0])
 					}
